@@ -1835,7 +1835,7 @@ class Processor:
         # As long as each next segment is an ADDITION, SUBTRACTION, or
         # INTERSECTION COLLECTOR, keep combining the results.
         while next_segment_idx < len(segments):
-            peekseg: PathSegment = segments[next_segment_idx]
+            peekseg: PathSegment = yaml_path.unescaped[next_segment_idx]
             (peek_type, peek_attrs) = peekseg
             if (
                 peek_type is PathSegmentTypes.COLLECTOR
